@@ -132,8 +132,18 @@ def _install(world):
         return VIter("reversed", [args[0]])
     world.builtins["reversed"] = VFunc("reversed", _reversed)
 
+    def _iter(ex, args, kwargs):
+        from pyvc.externals import VIter
+        return VIter("iter", [args[0]])
+    world.builtins["iter"] = VFunc("iter", _iter)
+
     def _next(ex, args, kwargs):
         it = args[0]
+        if getattr(it, "ik", None) == "iter" and isinstance(it.parts[0], VRec) and "__data__" in it.parts[0].fields:
+            m = it.parts[0].fields["__data__"]
+            if not ex.branch(m.n > 0):
+                ex.throw("StopIteration", None, origin="next-empty")
+            return VStr(sym.unbox_str(z3.Select(m.keys, 0)))
         if getattr(it, "ik", None) == "reversed" and isinstance(it.parts[0], VRec) and "__data__" in it.parts[0].fields:
             m = it.parts[0].fields["__data__"]
             if not ex.branch(m.n > 0):
@@ -433,6 +443,41 @@ def _get_field_none(ex, frame):
     pass
 
 
+def _flag(nm):
+    return z3.Function("fieldflag_" + nm, V, S, B if nm != "default" else V)
+
+
+def _set(path):
+    def f(rec, term):
+        tgt = rec
+        for a in path[:-1]:
+            tgt = tgt.fields[a]
+        tgt.fields[path[-1]] = VBool(term) if term.sort() == B else VObj(term)
+    return f
+
+
+_FIELD_FLAGS = {"required": _set(["required"]), "final": _set(["final"]), "no_input": _set(["no_input"]),
+                "immutable": _set(["field", "immutable"]), "default": _set(["default"])}
+
+
+@specfn("field_deletable")
+def _field_deletable(ex, fr, parser, key, options):
+    """the declared field addressed by `key` may be removed: not immutable, not required now"""
+    p, k = ex.box(parser), key.t
+    g = lambda nm: _flag(nm)(p, k)
+    u = ex.world.opaque_const("unprovided")
+    no_default = g("default") == u          # default_factory is None for these fields
+    ani = z3.Or(z3.And(g("final"), z3.Not(no_default)), g("no_input"))
+    required_now = z3.And(z3.Not(options.fields["ignore_required"].t), g("required"), z3.Not(ani))
+    immutable = z3.Or(options.fields["immutable"].t, g("final"), g("immutable"))
+    return VBool(z3.And(z3.Not(required_now), z3.Not(immutable)))
+
+
+@specfn("last_key")
+def _last_key(ex, fr, m):
+    return VStr(sym.unbox_str(z3.Select(m.keys, m.n - 1)))
+
+
 @contract("utype/parser/base.py", "BaseParser.get_field", props=["C07", "C05"])
 class GET_FIELD:
     """the declared field a key addresses (name, alias, alias_from entry, case variant), or None"""
@@ -440,12 +485,17 @@ class GET_FIELD:
 
     @staticmethod
     def result(ex, fr):
-        """None, or some declared field (a ParserField record)"""
+        """None, or the declared field the key addresses: a ParserField record whose flags are
+        (ghost) functions of the pair (parser, key), so that specifications can name `the field of key`"""
         if ex.choose([z3.BoolVal(True), z3.BoolVal(True)]) == 0:
             return VNone()
-        return ex.world.models["ParserField"].fresh(ex, "found_field!%d" % next(ex.counter),
-                                                    **{"field": Rec("Field", immutable=BOOL), "required": BOOL, "no_input": BOOL,
-                                                       "mode": NONE, "final": BOOL, "default": OBJ, "default_factory": NONE})
+        rec = ex.world.models["ParserField"].fresh(ex, "found_field!%d" % next(ex.counter),
+                                                   **{"field": Rec("Field", immutable=BOOL), "required": BOOL, "no_input": BOOL,
+                                                      "mode": NONE, "final": BOOL, "default": OBJ, "default_factory": NONE})
+        p, k = ex.box(fr.env["self"]), fr.env["key"].t
+        for nm, getter in _FIELD_FLAGS.items():
+            getter(rec, _flag(nm)(p, k))
+        return rec
     returns = {"none_iff_unknown": "(result is None) == (not is_field_name(self, key))"}
     only_raises = []
     trusted = "lookup through the alias tables (_get_field_from): interface assumed here; key resolution is the subject of C05"
@@ -511,7 +561,9 @@ class POPITEM:
     cases = {"any": dict(self=_schema())}
     requires = _PRE
     returns = {"one_entry_less": "len(self.__data__) == old(len(self.__data__)) - 1",
-               "a_declared_field_was_looked_up": "True"}
+               "the_removed_entry_was_deletable":
+                   "implies(is_field_name(self.__parser__, last_key(old(snap(self.__data__)))), "
+                   "field_deletable(self.__parser__, last_key(old(snap(self.__data__))), self.__options__))"}
     raises = {"Exception": {"state_unchanged": _UNCHANGED}}
     only_raises = ["DeleteError", "KeyError"]
     modifies = ["self.__data__"]
